@@ -1,23 +1,32 @@
 (* C07 -- parsing preserves every declared element of an ASN.1 module.
-   Statements only; models in Front/Lex.v, Front/Parse.v, Front/Resolve.v, printers in Front/Print.v, proofs in
-   Front/ParseProofs.v.
+   Statements only; models in Front/Lex.v, Front/Parse.v, Front/Resolve.v; surface syntax (abstract syntax plus the
+   spellings of numerals / literals), printers, denotations and well-formedness predicates in Front/Print.v; proofs in
+   Front/ParseProofs.v (tags, SIZE, INTEGER ranges, named numbers), Front/TypeGrammarProofs.v (everything else) and
+   Front/ModuleGrammarProofs.v (the generic module loop).
 
-   PARTIAL.  Covered productions of  parse_X (print_X x ++ rest) = POk (x, rest):
-     * Tag  (UNIVERSAL / APPLICATION / PRIVATE / context-specific, every numeral FromStr accepts), for every rest;
-     * "[ tag ] word" in front of a type (next_with_opt_tag), tag optional, for every rest;
-     * SIZE ( a ) | SIZE ( a , ... ) | SIZE ( a .. b ) | SIZE ( a .. b , ... )  with a, b numerals or value
-       references (Size::try_from), except the two forms the parser rewrites (SIZE(0..MAX) -> no constraint: class
-       size_0_max_becomes_unconstrained; SIZE(a..a) = SIZE(a), the canonical projection), for every rest;
-     * named numbers / named bits { n ( v ) , ... } for any value parser (maybe_read_constants), and
-       INTEGER [{ named numbers }] ( lo .. hi [, ...] ) with lo, hi numerals, value references or MIN / MAX
-       (Integer::try_from), except the two folded forms (0..MAX), (MIN..i64::MAX) (classes integer_0_max_...,
-       integer_min_i64max_...); the unconstrained INTEGER under the follow-set condition "neither { nor ( follows".
-   NOT covered by theorems: ENUMERATED, literals, OIDs, imports and the
-   mutually recursive type grammar (components / CHOICE / OF), module level; these are covered by the differential
-   tie of whole modules (op 3301: the model's dump equals the crate's) and by the Python oracle canon(A) only.
-   Refuted classes: one vm_compute witness each on the whole front-end model (tokenizer, parser, resolver). *)
+   Shape:  parse_X (print_X x ++ rest) = POk (denote x, rest)  for every continuation `rest` (in the FOLLOW set where
+   the parser looks ahead), numerals abstracted by the decimal parser (every spelling FromStr accepts).
+     * C07_parse_print : wf_module A -> parse (print_module A) = POk (denote_module A)  -- whole modules: name, optional
+       OBJECT IDENTIFIER value, IMPORTS, type assignments `Name ::= [tag] Type`, value assignments `name Type ::= literal`;
+     * C07_parse_print_type : the mutually recursive type grammar (read_role), every type the parser builds: BOOLEAN, NULL,
+       INTEGER (named numbers, range), the character string types, OCTET STRING, BIT STRING (named bits), SIZE in both
+       spellings, ENUMERATED, SEQUENCE / SET (tags, OPTIONAL, DEFAULT literal / reference, extension marker), SEQUENCE OF /
+       SET OF, CHOICE, type references; fuel bound 2 * tokens (parse_fuel is above it);
+     * C07_parse_print_enumerated, C07_parse_print_oid, C07_parse_print_opt_oid, C07_parse_print_imports: full for the
+       abstract syntax (every value of the model type that the parser can return is printed and read back);
+     * C07_parse_print_literal_partial: BOOLEAN / INTEGER / cstring / hstring / bstring literals; PARTIAL: cstrings are
+       the ones printable as `"` text pieces `"` on one line (first piece a text directly after the quote, no quote
+       character inside), hstrings of even length, bstrings of a multiple of 8 bits;
+     * the older _partial statements for tags, SIZE, named numbers, INTEGER ranges (now also covered through
+       C07_parse_print_type).
+   What wf_* excludes is, class by class, a REFUTED witness below (vm_compute on the whole front-end model: tokenizer,
+   parser, resolver): the parser does not preserve these inputs.  Not covered by theorems: the tokenizer direction
+   (text -> tokens; differential tie op 3301 and the Python oracle canon(A)) and type assignments interleaved with value
+   assignments (Front/ModuleGrammarProofs.parse_module_items allows any order; print_module prints the projection). *)
 From Coq Require Import String.
-From A1 Require Import Front.Lex Front.Parse Front.Print Front.ParseProofs Front.Resolve Extract.OpsParse.
+From A1 Require Front.ModuleGrammarProofs.
+From A1 Require Import Front.Lex Front.Parse Front.Print Front.ParseProofs Front.TypeGrammarProofs Front.Resolve
+  Extract.OpsParse.
 Local Open Scope N_scope.
 
 Theorem C07_parse_print_tag_partial : forall t num rest,
@@ -89,6 +98,195 @@ Example C07_nonvacuous :
   next_with_opt_tag (print_opt_tag (Some (TagApplication 7)) (s2n "007") ++ T (s2n "BOOLEAN") :: [P C_RBRACE])
   = POk (T (s2n "BOOLEAN"), Some (TagApplication 7), [P C_RBRACE]).
 Proof. split; vm_compute; reflexivity. Qed.
+
+(* ---- ENUMERATED, literals, OBJECT IDENTIFIER values, IMPORTS ---- *)
+
+(* Enumerated::try_from: items with and without numbers, one extension marker after item ext+1 (last or in the
+   middle), in front of any continuation.  enum_wf: at least one item (the parser rejects "{ }"), the marker follows
+   an existing item, numerals are what FromStr maps to the numbers. *)
+Theorem C07_parse_print_enumerated : forall its ext rest,
+  enum_wf its ext ->
+  read_enumerated (print_enumerated its ext ++ rest) = POk (map enum_item_value its, ext, rest).
+Proof. exact read_enumerated_print. Qed.
+
+(* Model::read_literal: TRUE / FALSE in any case, digits | '-' digits, "character strings" (tokens at consistent
+   columns on one line, the first token right after the quote is a text: see slit_wf and the REFUTED classes
+   string_literal_rebuilt_from_tokens, empty_string_literal_rejected, string_literal_quote_escape_rejected),
+   'hex'H with an even number of digits, 'bits'B with a multiple of 8 bits (classes hex_literal_odd_digits_...,
+   bit_literal_right_aligned_length_lost), in front of any continuation *)
+Theorem C07_parse_print_literal_partial : forall v rest,
+  slit_wf v -> read_literal (print_slit v ++ rest) = POk (denote_slit v, rest).
+Proof. exact read_literal_print. Qed.
+
+(* a word that is not a literal is handed back with E_UNSUPPORTED_LITERAL (read_field turns it into a reference) *)
+Theorem C07_parse_print_value_reference : forall s rest,
+  value_ref_ok s -> read_literal (T s :: rest) = PErr E_UNSUPPORTED_LITERAL (Some (T s)).
+Proof. exact read_literal_value_ref. Qed.
+
+(* read_oid after "{": NameForm / NumberForm / NameAndNumberForm components up to "}" *)
+Theorem C07_parse_print_oid : forall cs rest,
+  Forall oidc_ok cs -> read_oid (print_oid_body cs ++ rest) = POk (map fst cs, rest).
+Proof. exact read_oid_print. Qed.
+
+Theorem C07_parse_print_opt_oid : forall o rest,
+  opt_oid_ok o -> (o = None -> peek_is_sep C_LBRACE rest = false) ->
+  maybe_read_oid (print_opt_oid o ++ rest) = POk (denote_opt_oid o, rest).
+Proof. exact maybe_read_oid_print. Qed.
+
+(* read_imports after the keyword:  a , b FROM X { oid } c FROM Y ;  (i_from raw, as read_imports stores it) *)
+Theorem C07_parse_print_imports : forall is rest,
+  Forall import_ok is -> read_imports (print_imports is ++ rest) = POk (map denote_import is, rest).
+Proof. exact read_imports_print. Qed.
+
+(* ---- the type grammar ----
+   read_role on the printed surface type in front of any continuation in the FOLLOW set: BOOLEAN, NULL, INTEGER
+   [{named numbers}] [(range)], the five character string types / OCTET STRING / BIT STRING [{named bits}] with
+   [SIZE(..) | (SIZE(..))], ENUMERATED, SEQUENCE / SET { components: [tag] type [OPTIONAL | DEFAULT literal |
+   DEFAULT reference], one extension marker }, SEQUENCE / SET [SIZE] OF type, CHOICE { [tag] alternatives, one
+   marker }, type references.  Excluded by wf_sty, each a REFUTED class below: reference names spelled like builtin
+   words, the folded (0..MAX) / SIZE(0..MAX) forms, markers before the first component or a second marker, WITH
+   COMPONENTS (not printed), and the literal restrictions of slit_wf.
+   The fuel of the type grammar is depth-like: twice the number of printed tokens is enough. *)
+Theorem C07_parse_print_type : forall s rest fuel,
+  wf_sty s -> follow_ok s rest -> (2 * length (print_sty s) <= fuel)%nat ->
+  read_role fuel (print_sty s ++ rest) = POk (denote_sty s, rest).
+Proof. exact read_role_print. Qed.
+
+(* ---- whole modules:  Name [oid] DEFINITIONS AUTOMATIC TAGS ::= BEGIN [IMPORTS ..;] Name ::= [tag] Type ...
+   name Type ::= literal ... END  (type assignments first: the canonical projection of the two lists) ---- *)
+Theorem C07_parse_print : forall m, wf_module m -> parse (print_module m) = POk (denote_module m).
+Proof. exact parse_print_module. Qed.
+
+(* the same at the level of token chunks, for assignments in ANY order (type and value assignments interleaved) and
+   any header without BEGIN: an item is a name followed by a chunk that read_definition / read_value_reference
+   parses to its value in front of every continuation satisfying the item's follow condition
+   (Front/ModuleGrammarProofs.v; C07_parse_print is the instance with the printers of the type grammar) *)
+Theorem C07_parse_print_module_items : forall fuel name oid_toks oid hdr itoks imps its trailing,
+  let body := (itoks ++ ModuleGrammarProofs.print_items its ++ T (KW "END") :: trailing)%list in
+  maybe_read_oid (oid_toks ++ hdr ++ T (KW "BEGIN") :: body) = POk (oid, (hdr ++ T (KW "BEGIN") :: body)%list) ->
+  Forall (fun x => eq_text_ic x (KW "BEGIN") = false) hdr ->
+  ModuleGrammarProofs.imports_ok itoks imps ->
+  Forall (ModuleGrammarProofs.item_ok fuel) its ->
+  ModuleGrammarProofs.follows its (T (KW "END") :: trailing) ->
+  parse_module fuel (T name :: oid_toks ++ hdr ++ T (KW "BEGIN") :: body)
+  = POk {| m_name := make_name_nice name; m_oid := oid;
+           m_imports := map ModuleGrammarProofs.nice_import imps;
+           m_definitions := ModuleGrammarProofs.item_defs its;
+           m_value_references := ModuleGrammarProofs.item_vals its |}.
+Proof. exact ModuleGrammarProofs.parse_module_items. Qed.
+
+(* ---- non-vacuity of the new hypotheses ---- *)
+
+Ltac wf_leaf :=
+  match goal with
+  | |- True => exact I
+  | |- Forall _ [] => constructor
+  | |- _ <> _ => discriminate
+  | |- ~ _ => first [ let H := fresh in intros [H _]; discriminate H | let H := fresh in intros [_ H]; discriminate H ]
+  | |- stag_ok _ => let tg := fresh in let H := fresh in intros tg H; inversion H; subst; vm_compute; reflexivity
+  | |- (_ < _)%nat => vm_compute; lia
+  | |- _ = _ => vm_compute; reflexivity
+  end.
+Ltac wf_go :=
+  repeat first [ wf_leaf
+               | match goal with |- _ /\ _ => split | |- Forall _ (_ :: _) => constructor end
+               | progress cbn [wf_sty wf_sfields wf_svariants sdefault_wf ssize_wf size_wf range_wf slit_wf denotes_n
+                               denotes_z ext_pos_ok defs_wf val_wf fst snd sfields_length svariants_length length
+                               si_what si_from si_oid sm_name sm_oid sm_imports sm_defs sm_vals]
+               | progress unfold enum_wf, enum_item_ok, value_ref_ok, const_ok, piece_ok, oidc_ok, opt_oid_ok, import_ok,
+                                 assign_name_ok, wf_module ].
+
+Definition ex_enum_items : list senum_item :=
+  [(s2n "a", None); (s2n "b", Some (s2n "2", 2)); (s2n "c", None)].
+
+(* { a , b ( 2 ) , ... , c } *)
+Example C07_nonvacuous_enumerated :
+  enum_wf ex_enum_items (Some 1) /\
+  read_enumerated (print_enumerated ex_enum_items (Some 1) ++ [P C_COMMA])
+  = POk ([(s2n "a", None); (s2n "b", Some 2); (s2n "c", None)], Some 1, [P C_COMMA]).
+Proof. split; [unfold ex_enum_items; wf_go | vm_compute; reflexivity]. Qed.
+
+(* "ab  cd, e" , '0aF3'h , '0000010111111111'B , True , -12 *)
+Example C07_nonvacuous_literal :
+  slit_wf (SLString 3 10 (s2n "ab") [PcText 2 (s2n "cd"); PcSep 0 44; PcText 1 (s2n "e")]) /\
+  read_literal (print_slit (SLString 3 10 (s2n "ab") [PcText 2 (s2n "cd"); PcSep 0 44; PcText 1 (s2n "e")]) ++ [P C_RBRACE])
+  = POk (LString (s2n "ab  cd, e"), [P C_RBRACE]) /\
+  slit_wf (SLHex 1 1 (s2n "0aF3") (s2n "h")) /\
+  read_literal (print_slit (SLHex 1 1 (s2n "0aF3") (s2n "h")) ++ []) = POk (LOctets [10; 243], []) /\
+  slit_wf (SLBits 1 1 (s2n "0000010111111111") (s2n "B")) /\
+  read_literal (print_slit (SLBits 1 1 (s2n "0000010111111111") (s2n "B")) ++ []) = POk (LOctets [5; 255], []) /\
+  slit_wf (SLBool (s2n "True") true) /\ slit_wf (SLInt (s2n "-12") (-12)%Z) /\ value_ref_ok (s2n "+7").
+Proof. wf_go. Qed.
+
+(* { iso ( 1 ) 2 demo } and  A , b FROM Other { 1 } C FROM Third ; *)
+Definition ex_oid : list soidc :=
+  [(NameAndNumberForm (s2n "iso") 1, s2n "1"); (NumberForm 2, s2n "2"); (NameForm (s2n "demo"), [])].
+Definition ex_imports : list simport :=
+  [{| si_what := [s2n "A"; s2n "b"]; si_from := s2n "Other"; si_oid := Some [(NumberForm 1, s2n "1")] |};
+   {| si_what := [s2n "C"]; si_from := s2n "Third"; si_oid := None |}].
+
+Example C07_nonvacuous_oid_imports :
+  Forall oidc_ok ex_oid /\
+  read_oid (print_oid_body ex_oid ++ [T (KW "DEFINITIONS")])
+  = POk ([NameAndNumberForm (s2n "iso") 1; NumberForm 2; NameForm (s2n "demo")], [T (KW "DEFINITIONS")]) /\
+  Forall import_ok ex_imports /\
+  read_imports (print_imports ex_imports ++ [T (KW "END")])
+  = POk ([{| i_what := [s2n "A"; s2n "b"]; i_from := s2n "Other"; i_from_oid := Some [NumberForm 1] |};
+          {| i_what := [s2n "C"]; i_from := s2n "Third"; i_from_oid := None |}], [T (KW "END")]).
+Proof. unfold ex_oid, ex_imports. wf_go. Qed.
+
+(* SEQUENCE { a [0] INTEGER (0..7) OPTIONAL, b UTF8String (SIZE(1..4)) DEFAULT "hi", ..., c SEQUENCE SIZE(2) OF BOOLEAN,
+              d [APPLICATION 3] CHOICE { x NULL, ..., y [1] Other }, e ENUMERATED { a, b(2), ..., c } DEFAULT dflt,
+              f BIT STRING { flag(0) }, g SET OF OCTET STRING } *)
+Definition ex_ty : sty :=
+  SSequence
+    (SFCons (s2n "a") (Some (TagContext 0), s2n "0")
+       (SInteger [] (Some ((Some (Lit 0%Z), Some (Lit 7%Z), false), s2n "0", s2n "7"))) SDOptional
+    (SFCons (s2n "b") (None, [])
+       (SString Utf8 (SSParen (SRange (Lit 1) (Lit 4) false) (s2n "1") (s2n "4"))) (SDLit (SLString 1 1 (s2n "hi") []))
+    (SFCons (s2n "c") (None, []) (SSequenceOf (SSBare (SFix (Lit 2) false) (s2n "2") []) SBoolean) SDNone
+    (SFCons (s2n "d") (Some (TagApplication 3), s2n "3")
+       (SChoice (SVCons (s2n "x") (None, []) SNull
+                (SVCons (s2n "y") (Some (TagContext 1), s2n "1") (SRef (s2n "Other")) SVNil)) (Some 0)) SDNone
+    (SFCons (s2n "e") (None, []) (SEnumerated ex_enum_items (Some 1)) (SDRef (s2n "dflt"))
+    (SFCons (s2n "f") (None, []) (SBitString [(s2n "flag", s2n "0", 0)] SSNone) SDNone
+    (SFCons (s2n "g") (None, []) (SSetOf SSNone (SOctetString SSNone)) SDNone SFNil)))))))
+    (Some 1).
+
+Example C07_nonvacuous_type :
+  wf_sty ex_ty /\ follow_ok ex_ty [T (KW "END")] /\
+  read_role (2 * length (print_sty ex_ty)) (print_sty ex_ty ++ [T (KW "END")]) = POk (denote_sty ex_ty, [T (KW "END")]).
+Proof.
+  split; [|split].
+  - unfold ex_ty, ex_enum_items. wf_go.
+  - unfold follow_ok. cbn [follow_req ex_ty]. repeat split; intros H; discriminate H.
+  - vm_compute. reflexivity.
+Qed.
+
+Definition ex_module : smodule :=
+  {| sm_name := s2n "Demo";
+     sm_oid := Some ex_oid;
+     sm_imports := ex_imports;
+     sm_defs := [(s2n "T1", (Some (TagApplication 1), s2n "1"), ex_ty);
+                 (s2n "T2", (None, []), SOctetString SSNone);
+                 (s2n "T3", (None, []), SInteger [] None)];
+     sm_vals := [(s2n "v", SInteger [] None, SLInt (s2n "5") 5%Z);
+                 (s2n "w", SRef (s2n "T2"), SLHex 9 1 (s2n "00ff") (s2n "H"))] |}.
+
+Example C07_nonvacuous_module :
+  wf_module ex_module /\ parse (print_module ex_module) = POk (denote_module ex_module).
+Proof.
+  split; [| vm_compute; reflexivity].
+  unfold wf_module, ex_module, ex_oid, ex_imports. cbn [sm_name sm_oid sm_imports sm_defs sm_vals].
+  split; [vm_compute; reflexivity|]. split; [wf_go|]. split; [wf_go|]. split.
+  - cbn [defs_wf]. unfold ex_ty, ex_enum_items.
+    repeat match goal with
+           | |- follow_ok _ _ /\ _ => split; [unfold follow_ok; cbn [follow_req]; repeat split; intros _; vm_compute; reflexivity|]
+           | |- _ /\ _ => split
+           | _ => wf_go
+           end.
+  - wf_go.
+Qed.
 
 (* ---- witnesses ---- *)
 
@@ -173,12 +371,69 @@ Example C07_refuted_module_name_suffix_stripped :
   end.
 Proof. vm_compute. reflexivity. Qed.
 
+(* ---- witnesses for the classes excluded above ---- *)
+
+Definition field_defaults (s : string) : option (list (list (str * option literal))) :=
+  match resolved s with
+  | Some r => Some (map (fun d => match snd (fst (snd d)) with
+                                  | TSequence fs _ => map (fun f => (fst f, snd (snd f))) fs
+                                  | _ => []
+                                  end) (m_definitions r))
+  | None => None
+  end.
+
+(* a cstring is rebuilt from tokens and columns: a leading separator character becomes a blank, outer blanks vanish *)
+Example C07_refuted_string_literal_rebuilt_from_tokens :
+  field_defaults "M DEFINITIONS ::= BEGIN A ::= SEQUENCE { a UTF8String DEFAULT ""(a)"" } END"
+  = Some [[(s2n "a", Some (LString (s2n " a)")))]] /\
+  field_defaults "M DEFINITIONS ::= BEGIN A ::= SEQUENCE { a UTF8String DEFAULT "" ab "" } END"
+  = Some [[(s2n "a", Some (LString (s2n "ab")))]].
+Proof. split; vm_compute; reflexivity. Qed.
+
+(* the closing quote of "" (and of ''H) is taken as content: the following tokens are swallowed up to the next quote *)
+Example C07_refuted_empty_string_literal_rejected :
+  parse_error_kind "M DEFINITIONS ::= BEGIN A ::= SEQUENCE { a UTF8String DEFAULT """" } END" = Some E_END_OF_STREAM /\
+  parse_error_kind "M DEFINITIONS ::= BEGIN A ::= SEQUENCE { a UTF8String DEFAULT """", b UTF8String DEFAULT ""x"" } END"
+  = Some E_UNEXPECTED_TOKEN /\
+  parse_error_kind "M DEFINITIONS ::= BEGIN A ::= SEQUENCE { a OCTET STRING DEFAULT ''H } END" = Some E_END_OF_STREAM.
+Proof. repeat split; vm_compute; reflexivity. Qed.
+
+(* the doubled quote that stands for a quote character inside a cstring ends the literal *)
+Example C07_refuted_string_literal_quote_escape_rejected :
+  parse_error_kind "M DEFINITIONS ::= BEGIN A ::= SEQUENCE { a UTF8String DEFAULT ""a""""b"" } END" = Some E_UNEXPECTED_TOKEN.
+Proof. vm_compute; reflexivity. Qed.
+
+(* '123'H and '0123'H are the same default value (X.680 pads '123'H to 12 30) *)
+Example C07_refuted_hex_literal_odd_digits_padded_in_front :
+  def_types "M DEFINITIONS ::= BEGIN A ::= SEQUENCE { a OCTET STRING DEFAULT '123'H } END"
+  = def_types "M DEFINITIONS ::= BEGIN A ::= SEQUENCE { a OCTET STRING DEFAULT '0123'H } END" /\
+  field_defaults "M DEFINITIONS ::= BEGIN A ::= SEQUENCE { a OCTET STRING DEFAULT '123'H } END"
+  = Some [[(s2n "a", Some (LOctets [1; 35]))]].
+Proof. split; vm_compute; reflexivity. Qed.
+
+(* an assignment named Size / size after a string type without a constraint is taken for its SIZE constraint *)
+Example C07_refuted_assignment_named_size_after_string_type_rejected :
+  parse_error_kind "M DEFINITIONS ::= BEGIN A ::= OCTET STRING Size ::= INTEGER END" = Some E_EXPECTED_SEPARATOR_GOT /\
+  parse_error_kind "M DEFINITIONS ::= BEGIN A ::= UTF8String size INTEGER ::= 5 END" = Some E_EXPECTED_SEPARATOR_GOT /\
+  def_types "M DEFINITIONS ::= BEGIN A ::= OCTET STRING Siz ::= INTEGER END"
+  = Some [TOctetString SAny; TInteger (None, None, false) []].
+Proof. repeat split; vm_compute; reflexivity. Qed.
+
 Print Assumptions C07_parse_print_tag_partial.
 Print Assumptions C07_parse_print_opt_tag_partial.
 Print Assumptions C07_parse_print_size_partial.
 Print Assumptions C07_parse_print_named_numbers_partial.
 Print Assumptions C07_parse_print_integer_range_partial.
 Print Assumptions C07_parse_print_integer_unconstrained_partial.
+Print Assumptions C07_parse_print_enumerated.
+Print Assumptions C07_parse_print_literal_partial.
+Print Assumptions C07_parse_print_value_reference.
+Print Assumptions C07_parse_print_oid.
+Print Assumptions C07_parse_print_opt_oid.
+Print Assumptions C07_parse_print_imports.
+Print Assumptions C07_parse_print_type.
+Print Assumptions C07_parse_print.
+Print Assumptions C07_parse_print_module_items.
 Print Assumptions C07_refuted_integer_0_max_becomes_unconstrained.
 Print Assumptions C07_refuted_size_0_max_becomes_unconstrained.
 Print Assumptions C07_refuted_marker_before_first_component.
@@ -189,3 +444,8 @@ Print Assumptions C07_refuted_assignment_named_end_truncates_module.
 Print Assumptions C07_refuted_size_0_max_extensible_rejected.
 Print Assumptions C07_refuted_bit_literal_right_aligned_length_lost.
 Print Assumptions C07_refuted_module_name_suffix_stripped.
+Print Assumptions C07_refuted_string_literal_rebuilt_from_tokens.
+Print Assumptions C07_refuted_empty_string_literal_rejected.
+Print Assumptions C07_refuted_string_literal_quote_escape_rejected.
+Print Assumptions C07_refuted_hex_literal_odd_digits_padded_in_front.
+Print Assumptions C07_refuted_assignment_named_size_after_string_type_rejected.
